@@ -297,7 +297,50 @@ fn callers(ctx: &mut Ctx) {
     }
 }
 
+/// a converter whose fraction limits come from several levels of a user layer: the unit's own entry wins over the
+/// system level, which wins over `all` (units_file rustdoc: all < metric/imperial < quantity < unit)
+fn layered_limits(ctx: &mut Ctx) {
+    let text = "[fractions]\nall = { enabled = true, max_denominator = 16, max_whole = 100, accuracy = 0.2 }\nimperial = { enabled = true, max_denominator = 8, max_whole = 50 }\n[fractions.unit]\ncup = { max_denominator = 2, max_whole = 3 }\nlb = { accuracy = 0.01, max_denominator = 4 }\ng = { max_whole = 2 }\n";
+    let Some(conv) = toml::from_str::<cooklang::convert::UnitsFile>(text).ok().and_then(|l| Converter::builder().with_units_file(cooklang::convert::UnitsFile::bundled()).ok()?.with_units_file(l).ok()?.finish().ok()) else {
+        ctx.harness_errors.push("C12: the layered converter does not build".into());
+        return;
+    };
+    // (symbol, max_den, max_whole, accuracy) the layers give each probed unit
+    let limits: [(&str, u8, u32, f32); 6] = [("c", 2, 3, 0.2), ("lb", 4, 50, 0.01), ("g", 16, 2, 0.2), ("oz", 8, 50, 0.2), ("ml", 16, 100, 0.2), ("tsp", 8, 50, 0.2)];
+    let mut r = crate::core::Rng::new(ctx.seed ^ 0x1a7e);
+    let n = ctx.budget(6_000, 600_000);
+    for i in 0..n {
+        let (sym, md, mw, acc) = limits[(i % 6) as usize];
+        let v = match i % 3 {
+            0 => (r.below(1600) as f64) / 16.0,
+            1 => r.log_uniform(1e-2, 2e2),
+            _ => (r.below(120) as f64) + [0.125, 0.3, 0.5, 0.0625, 1.0 / 3.0][r.below(5)],
+        };
+        let mut q = Quantity::new(Value::Number(Number::Regular(v)), Some(sym.to_string()));
+        let case = Case::new("caller", format!("{v} {sym}"), 0, "layered").with(json!({"bits": v.to_bits(), "unit": sym}));
+        ctx.evals += 1;
+        if let Err(p) = crate::core::guarded(|| q.try_fraction(&conv)) {
+            ctx.panic_violation(&case, "try_fraction", p);
+            continue;
+        }
+        if q.unit() != Some(sym) {
+            continue;
+        }
+        if let Value::Number(Number::Fraction { whole, num, den, err }) = q.value() {
+            ctx.count("layered_caller_fraction_results");
+            if *num > 0 && *den > md as u32 {
+                ctx.violation(&case, "caller", "denominator_above_unit_limit", format!("{v} {sym} -> {q} but the layers give {sym} max_denominator {md}"));
+            } else if *whole > mw {
+                ctx.violation(&case, "caller", "whole_above_unit_limit", format!("{v} {sym} -> {q} but the layers give {sym} max_whole {mw}"));
+            } else if err.abs() > acc as f64 * v * (1.0 + 1e-9) {
+                ctx.violation(&case, "caller", "error_above_unit_accuracy", format!("{v} {sym} -> {:?} but the layers give {sym} accuracy {acc}", q.value()));
+            }
+        }
+    }
+}
+
 pub fn run(ctx: &mut Ctx) {
+    layered_limits(ctx);
     let vals = values(ctx);
     ctx.notes.insert("values".into(), vals.len().into());
     let (dens, accs, wholes): (Vec<u8>, Vec<f32>, Vec<u32>) = if ctx.is_thorough() {
